@@ -9,6 +9,8 @@ structure DState where
   exact : List Nat
   /-- kind (with flag) of the last mutation that advanced `last_modified` -/
   lastMut : String := "none"
+  /-- operational limit max_nodes_per_browse (MAX_NODES_PER_BROWSE after reset) -/
+  blimit : Nat := 50
 
 def showDesc (d : Desc) : String :=
   s!"{d.target}:{d.ty}:{boolStr d.fwd}:{d.cls}"
@@ -262,17 +264,45 @@ def dedupStr : List String → List String
 def dstep (s : DState) (toks : List String) : DState × String :=
   let run (op : Op) : St × Res := step s.st op
   match toks with
-  | ["reset"] => ({ st := init, exact := [], lastMut := "none" }, "ok")
+  | ["reset"] => ({ st := init, exact := [], lastMut := "none", blimit := 50 }, "ok")
   | ["browse", n, dir, ty, sub, mask, rmask, req] =>
     match n.toNat?, dir.toNat?, ty.toNat?, parseBool? sub, mask.toNat?, rmask.toNat?, req.toNat? with
     | some n, some dir, some ty, some sub, some mask, some rmask, some req =>
       if dir > 3 ∨ !(ty = 0 ∨ tyOk ty) ∨ !u32Ok mask ∨ !u32Ok rmask ∨ !u32Ok req then (s, "bad-op") else
+      if s.blimit = 0 then (s, "err BadTooManyOperations @@ bm.n-gt-limit") else
       match run (.browse n dir ty sub mask rmask req) with
       | (st, .browse r) =>
         let e := dir = 0
         let ex := match r.cp with | some i => if e then i :: s.exact else s.exact | none => s.exact
         ({ s with st := st, exact := ex }, withTags s!"ok {showResult e true r} c={st.se.cps.length}"
           (dedupStr (browseTags s.st n dir ty sub mask rmask req r)))
+      | (_, .panic) => (s, "panic")
+      | _ => (s, "bad-op")
+    | _, _, _, _, _, _, _ => (s, "bad-op")
+  | ["blimit", l] =>
+    match l.toNat? with
+    | some l => if u32Ok l then ({ s with blimit := l }, "ok") else (s, "bad-op")
+    | none => (s, "bad-op")
+  | ["browsev", n] =>
+    -- a view is specified: views are not supported, nothing is touched
+    match n.toNat? with
+    | some n => if u32Ok n then (s, "err BadViewIdUnknown @@ bv.view") else (s, "bad-op")
+    | none => (s, "bad-op")
+  | ["browsem", ns, dir, ty, sub, mask, rmask, req] =>
+    match parseList String.toNat? ns, dir.toNat?, ty.toNat?, parseBool? sub, mask.toNat?, rmask.toNat?, req.toNat? with
+    | some ns, some dir, some ty, some sub, some mask, some rmask, some req =>
+      if dir > 3 ∨ !(ty = 0 ∨ tyOk ty) ∨ !u32Ok mask ∨ !u32Ok rmask ∨ !u32Ok req ∨ !ns.all u32Ok ∨ ns.length > 30 then (s, "bad-op") else
+      let szTag := if ns.isEmpty then "bm.empty" else s!"bm.n-{cmp3 ns.length s.blimit}-limit"
+      match run (.browsem ns dir ty sub mask rmask req s.blimit) with
+      | (st, .nexts rs) =>
+        let e := dir = 0
+        let ex := rs.foldl (fun ex r => match r.cp with | some i => if e then i :: ex else ex | none => ex) s.exact
+        ({ s with st := st, exact := ex },
+          withTags s!"ok {" | ".intercalate (rs.map (showResult e true))} c={st.se.cps.length}"
+            [szTag, if ns.length = 1 then "bm.one" else "bm.many",
+             if (rs.filter fun r => r.cp.isSome).length > 1 then "bm.cps-many" else "bm.cps-le1"])
+      | (_, .fault) => (s, s!"err BadNothingToDo @@ {szTag}")
+      | (_, .tooMany) => (s, s!"err BadTooManyOperations @@ {szTag}")
       | (_, .panic) => (s, "panic")
       | _ => (s, "bad-op")
     | _, _, _, _, _, _, _ => (s, "bad-op")
